@@ -259,6 +259,9 @@ def main():
              "kind_free_text": "TLA+ specification in /verif/spec checked with TLC; bound to the code by vectors and "
                                "graph walks generated by TLC (spec -> code), schedule replay of TLC behaviours under a "
                                "deterministic scheduler, and TLC validation of traces recorded from the real code"},
+            {"name": "apalache-inductive", "path": "/verif/engine/apalache.py", "serves_properties": ["C16"],
+             "kind_free_text": "Apalache symbolic check of an inductive invariant (spec/Apa_SessionConc.tla): the unbounded complement of "
+                               "TLC's bounded exploration of SessionConc.tla"},
         ],
         "checks": checks,
         "not_applicable": na,
